@@ -1,12 +1,13 @@
 #!/bin/bash
 # runs every check's quick tier once, sequentially, and prints one summary line per property (exit code, wall time, summary line)
+# usage: [VERIF_SEED=k] [NOEV=1] tools/run_quick.sh [ids...]
 cd /verif
 mkdir -p /tmp/quick
-for p in ${@:-C01 C02 C03 C04 C05 C06 C07 C08 C09 C10 C11 C12 C13 C14 C15 C16 C17 C18 C20}; do
+for p in ${@:-C01 C02 C03 C04 C05 C06 C07 C08 C09 C10 C11 C12 C13 C14 C15 C16 C17 C18 C19 C20}; do
   s=$(date +%s)
-  ./check $p --tier quick > /tmp/quick/$p.out 2>&1
+  ./check $p --tier quick ${NOEV:+--no-evidence} > /tmp/quick/$p.out 2>&1
   rc=$?
   e=$(date +%s)
   echo "$p exit=$rc wall=$((e-s))s $(grep -E "^$p quick" /tmp/quick/$p.out | cut -c1-300)"
-  grep -E "^VIOLATION|harness error" /tmp/quick/$p.out | head -5
+  grep -E "^VIOLATION|harness error|^  key" /tmp/quick/$p.out | head -6 | cut -c1-300
 done
